@@ -25,7 +25,15 @@ from vlib.ring import DenotationError
 PROP = "C21"
 
 
+def extend(P):
+    if not hasattr(P, "q3"):
+        P.q3 = coef(P.dom, (3,), count=794)
+        P.h2 = coef(P.dom, (), count=795)
+    return P
+
+
 def mappings(P):
+    extend(P)
     u, h, w, z, A, c = P.u, P.h, P.w, P.z, P.A, P.c
     dom = P.dom
     k = coef(dom, (), count=790)
@@ -36,10 +44,13 @@ def mappings(P):
         "w->z": {w: z}, "w->expr": {w: 2 * w + z}, "w->zero": {w: zero(P.g)}, "w->list": {w: as_vector([u] * P.g)},
         "A->AT": {A: A.T}, "A->outer": {A: ufl.outer(w, z)}, "c->2": {c: 2.0}, "c->u": {c: u},
         "u->arg": {u: v0}, "absent": {k: h}, "u,w": {u: h * k, w: z * k}, "u->zero,h->k": {u: zero(), h: k},
+        "q->const": {P.q3: ufl.Constant(dom, (3,), count=793)}, "q->zero": {P.q3: zero(3)}, "q->expr": {P.q3: as_vector([u, h, u * h])},
+        "h->u": {h: u}, "h->u*u": {h: u * u},
     }
 
 
 def expressions(P):
+    extend(P)
     u, h, w, z, A, c, x = P.u, P.h, P.w, P.z, P.A, P.c, P.x
     s = P.scalars()
     E = {k: s[k] for k in ("u*u", "u*h", "c*u", "sin", "div", "cond", "powg", "dot", "Aww", "innerAA", "var", "var2",
@@ -50,6 +61,11 @@ def expressions(P):
         "restricted_grad": dot(grad(u)("+"), w("-")), "var_of_u": variable(u * u) * h,
         "var_nested": variable(variable(u) * h) + u, "vector": u * w + z, "tensor": u * A + ufl.outer(w, w),
         "no_u": h * c + dot(z, z), "cond_vec": conditional(lt(u, h), w, z),
+        # nabla_grad of a vector whose length differs from the geometric dimension (axis order matters for zero images)
+        "nabla_grad_q": ufl.nabla_grad(P.q3) if hasattr(P, "q3") else grad(u), "nabla_grad_q_row": (ufl.nabla_grad(P.q3)[0, :] if hasattr(P, "q3") else grad(u)),
+        "nabla_grad_q_dot": (dot(ufl.nabla_grad(P.q3), P.q3) if hasattr(P, "q3") else grad(u)),
+        # an unexpanded Gateaux derivative whose mapped terminal's image contains the differentiation variable
+        "unexpanded_derivative": ufl.derivative(u * u * h, u, P.h2) if hasattr(P, "h2") else u * h,
     })
     return E
 
@@ -128,7 +144,10 @@ def _one(name, e, m, spec, out=None):
     import ufl.classes as C
 
     present = set(extract_type(e, C.Terminal))
-    if not any(k in present for k in m) and not (out is e or out == e):
+    # (an input with unexpanded derivative nodes is first expanded by replace(): same value, different object; only the
+    #  value is compared for those)
+    has_unexpanded = bool(extract_type(e, C.CoefficientDerivative))
+    if not has_unexpanded and not any(k in present for k in m) and not (out is e or out == e):
         return outcome(name, "violated", detail="expression without mapped terminals was not returned unchanged",
                        sample=sample, witness={"structural": "identity"})
     # oracle environment: mapped terminals evaluate to their images (in the *original* environment)
